@@ -98,8 +98,16 @@ def run_sweep(tier, select=None, N=None):
     for name, kw in sets:
         if select and not select(kw):
             continue
+        kw = dict(kw)
+        big = n >= 4 and kw.get("api") == "try_for_each"
+        if big:
+            # every failing subset of size <= 2 on every 4-node DAG is tens of millions of states per option set:
+            # N = 4 with one failure, and N = 3 with the full failure budget
+            out.append(job("Run", f"run_{name}_n3", run_consts(3, **kw), RUN_INVS, view="View", workers=2, heap="3g"))
+            kw["maxfail"] = 1
         out.append(job("Run", f"run_{name}_n{n}", run_consts(n, **kw), RUN_INVS, view="View",
-                       workers=3 if tier == "thorough" else 2, heap="6g" if tier == "thorough" else "3g"))
+                       workers=4 if tier == "thorough" else 2, heap="6g" if tier == "thorough" else "3g",
+                       coverage=tier != "thorough", timeout=2400))
     return out
 
 
@@ -137,6 +145,10 @@ def stream_sweep(tier, interrupting_only=False):
                  ("int_polln0", dict(wrapped=True, strategy="poll_n", k=0)),
                  ("int_non", dict(wrapped=True, strategy="non"))]
     out = []
+    if tier == "thorough" and not interrupting_only:
+        # all 1 024 DAGs on five functions, every interleaving of polls and drops (no early stream drop)
+        out.append(job("StreamApi", "stream_plain_fwd_n5", stream_consts(5, early=False), STREAM_INVS, workers=4, heap="8g",
+                       coverage=False, timeout=2400))
     for name, kw in sets:
         if interrupting_only and not kw.get("wrapped"):
             continue
